@@ -43,7 +43,7 @@ class Lin(Case):
     def mat(s, kp, name, m, n, symbolic_in=False):
         a = [x for x in s.args if x.name == name][0]; rd = Reader(kp.dom)
         if symbolic_in:
-            return FM(kp.dom, [[FV(a.w, r=z3.Real(a.var(i * n + j))) for j in range(n)] for i in range(m)])
+            return FM(kp.dom, [[FV(a.w, r=(z3.RealVal(a.fixed[i * n + j]) if (i * n + j) in a.fixed else z3.Real(a.var(i * n + j)))) for j in range(n)] for i in range(m)])
         rows = []
         for i in range(m):
             row = []
